@@ -1,4 +1,5 @@
 import Postcard.Props.C18
+import Postcard.Props.C18Alloc
 -- property theorems of C18: every one must depend only on propext / Classical.choice / Quot.sound
 #print axioms Postcard.dyn_total
 #print axioms Postcard.dyn_ser_total
@@ -16,3 +17,10 @@ import Postcard.Props.C18
 #print axioms Postcard.dyn_alloc_bound_false
 #print axioms Postcard.witness_reencode_option_unit
 #print axioms Postcard.witness_reencode_dup_fields
+#print axioms Postcard.dyn_alloc_bound
+#print axioms Postcard.dyn_alloc_bound_consumed
+#print axioms Postcard.dyn_alloc_schema_kind
+#print axioms Postcard.frag_sub
+#print axioms Postcard.alloc_map_seq_unit
+#print axioms Postcard.alloc_enum_seq_unit
+#print axioms Postcard.DynA.decOwnedBytes_cost
